@@ -232,6 +232,229 @@ pub fn generate_rt(seed: u64, n: usize, emit: &mut dyn FnMut(String)) {
 	}
 }
 
+/// `reuse <allowSlow> <schema> <n> (<budget|-> <sv>)*`: one `SerializerConfig` used for a whole
+/// history of serializations (some failing half-way, some on a sink that fails after a budget)
+pub fn run_reuse(line: &str) -> Result<String, String> {
+	let mut r = R::new(line);
+	let _ = r.tok()?;
+	let allow_slow = r.n()? != 0;
+	let raw = r.schema()?;
+	let ops = r.list(|r| Ok((r.optn()?, r.sv()?)))?;
+	let schema = match build::to_schema_mut(&raw).freeze() {
+		Ok(s) => s,
+		Err(_) => return Ok("freeze-err".into()),
+	};
+	let mut config = serde_avro_fast::ser::SerializerConfig::new(&schema);
+	if allow_slow {
+		config.allow_slow_sequence_to_bytes();
+	}
+	let mut outs = vec![];
+	for (budget, v) in &ops {
+		let res = std::panic::catch_unwind(std::panic::AssertUnwindSafe(|| match budget {
+			None => match serde_avro_fast::to_datum_vec(v, &mut config) {
+				Ok(bytes) => format!("ok {}", hex(&bytes)),
+				Err(_) => "err".into(),
+			},
+			Some(b) => {
+				let sink = BudgetSink { buf: vec![], remaining: *b };
+				match serde_avro_fast::to_datum(v, sink, &mut config) {
+					Ok(sink) => format!("ok {}", hex(&sink.buf)),
+					Err(_) => "err".into(),
+				}
+			}
+		}));
+		let (bufs, supers) = config.verif_pool();
+		let pool = format!(
+			"pool {} {}",
+			bufs.iter().map(|l| l.to_string()).collect::<Vec<_>>().join(","),
+			supers.iter().map(|l| l.to_string()).collect::<Vec<_>>().join(",")
+		);
+		match res {
+			Ok(s) => outs.push(format!("{s} {pool}")),
+			Err(_) => {
+				outs.push("panic".into());
+				break;
+			}
+		}
+	}
+	Ok(outs.join(" ; "))
+}
+
+pub fn generate_reuse(seed: u64, n: usize, emit: &mut dyn FnMut(String)) {
+	let mut rng = rng_from(seed, "reuse");
+	for i in 0..n {
+		let max_nodes = if i % 5 == 0 { 24 } else { 12 };
+		let schema = gen_schema(&mut rng, max_nodes, false);
+		let allow_slow = rng.gen_bool(0.7);
+		let k = rng.gen_range(2..8);
+		let mut w = W::default();
+		w.t("reuse").n(allow_slow as usize).schema(&schema).n(k);
+		let mut all = vec![];
+		for _ in 0..k {
+			let mut vg = ValueGen {
+				rng: &mut rng,
+				schema: &schema,
+				allow_slow,
+				// out-of-order records and buffered byte sequences exercise the pool
+				exotic: 0.7,
+				invalid: 0.0,
+				by_name_only: false,
+				maybe_invalid: false,
+				no_decimal_oracle: false,
+			};
+			let mut v = vg.gen(0, 0);
+			// failures half-way: a type mismatch somewhere inside, or a sink that gives up
+			let kind = rng.gen_range(0..4);
+			if kind == 0 {
+				mutate(&mut rng, &mut v);
+			}
+			let budget = if kind == 1 { Some(rng.gen_range(0..30)) } else { None };
+			w.optn(budget).sv(&v);
+			all.push(v);
+		}
+		let allv = SV::Seq(None, all);
+		ext_entries(&mut w, &schema, &allv);
+		emit(w.s);
+	}
+}
+
+/// `perm <allowSlow> <schema> <k> <sv>*k`: presentations of the same record in different field
+/// orders / shapes, then injections that must fail
+pub fn run_perm(line: &str) -> Result<String, String> {
+	let mut r = R::new(line);
+	let _ = r.tok()?;
+	let allow_slow = r.n()? != 0;
+	let raw = r.schema()?;
+	let same = r.list(|r| r.sv())?;
+	let bad = r.list(|r| r.sv())?;
+	let schema = match build::to_schema_mut(&raw).freeze() {
+		Ok(s) => s,
+		Err(_) => return Ok("freeze-err".into()),
+	};
+	let mut config = serde_avro_fast::ser::SerializerConfig::new(&schema);
+	if allow_slow {
+		config.allow_slow_sequence_to_bytes();
+	}
+	let mut one = |v: &SV| {
+		std::panic::catch_unwind(std::panic::AssertUnwindSafe(|| match serde_avro_fast::to_datum_vec(v, &mut config) {
+			Ok(bytes) => format!("ok {}", hex(&bytes)),
+			Err(_) => "err".into(),
+		}))
+		.unwrap_or_else(|_| "panic".into())
+	};
+	let a: Vec<String> = same.iter().map(&mut one).collect();
+	let b: Vec<String> = bad.iter().map(&mut one).collect();
+	Ok(format!("{} | {}", a.join(" ; "), b.join(" ; ")))
+}
+
+pub fn generate_perm(seed: u64, n: usize, emit: &mut dyn FnMut(String)) {
+	use rand::seq::SliceRandom;
+	let mut rng = rng_from(seed, "perm");
+	let mut produced = 0;
+	while produced < n {
+		let schema = gen_schema(&mut rng, 14, false);
+		// find a record node with ≥ 2 fields; make it the root by rotation is not possible
+		// (indices), so only keep schemas whose root is a record
+		let (name, fields) = match kind_of(&schema[0]) {
+			Kind::Record(nm, fs) if fs.len() >= 2 => (nm, fs),
+			_ => continue,
+		};
+		let allow_slow = rng.gen_bool(0.5);
+		// one value per field, natural presentation
+		let mut vals: Vec<(String, SV, bool)> = vec![];
+		for (f, k) in &fields {
+			let mut vg = ValueGen {
+				rng: &mut rng,
+				schema: &schema,
+				allow_slow,
+				exotic: 0.3,
+				invalid: 0.0,
+				by_name_only: true,
+				maybe_invalid: false,
+				no_decimal_oracle: true,
+			};
+			let v = vg.gen(*k, 1);
+			let fk = kind_of(&schema[*k]);
+			let is_null = matches!(v, SV::Unit | SV::None)
+				|| matches!(&v, SV::NewtypeVariant(_, _, n, _) | SV::NewtypeStruct(n, _) if n == "Null");
+			let nullable = match &fk {
+				Kind::Null => true,
+				Kind::Union(vs) => vs.iter().any(|&b| kind_of(&schema[b]) == Kind::Null),
+				_ => false,
+			};
+			vals.push((f.clone(), v, nullable && is_null));
+		}
+		let (short, _) = split_name(&name);
+		let base: Vec<(String, SV)> = vals.iter().map(|(f, v, _)| (f.clone(), v.clone())).collect();
+		let mut same = vec![SV::Struct(short.clone(), base.clone())];
+		// permutations: all of them for ≤ 4 fields, random ones beyond
+		let nperm = if base.len() <= 3 { 6 } else { 8 };
+		for _ in 0..nperm {
+			let mut p = base.clone();
+			p.shuffle(&mut rng);
+			same.push(match rng.gen_range(0..3) {
+				0 => SV::Struct(short.clone(), p),
+				1 => SV::Map(Some(p.len()), p.into_iter().map(|(k, v)| (SV::Str(k), v)).collect(), rng.gen()),
+				_ => SV::StructVariant("E".into(), 0, short.clone(), p),
+			});
+		}
+		// omitted nullable fields whose value is null
+		let omitted: Vec<(String, SV)> =
+			vals.iter().filter(|(_, _, omit)| !*omit || rng.gen_bool(0.3)).map(|(f, v, _)| (f.clone(), v.clone())).collect();
+		if omitted.len() < base.len() {
+			let mut p = omitted.clone();
+			p.shuffle(&mut rng);
+			same.push(SV::Struct(short.clone(), p));
+		}
+		// injections that must be rejected
+		let mut bad = vec![];
+		{
+			let mut p = base.clone();
+			p.shuffle(&mut rng);
+			let at = rng.gen_range(0..=p.len());
+			p.insert(at, ("no_such_field".into(), SV::Unit));
+			bad.push(SV::Struct(short.clone(), p));
+			let mut p = base.clone();
+			p.shuffle(&mut rng);
+			let d = p[rng.gen_range(0..p.len())].clone();
+			let at = rng.gen_range(0..=p.len());
+			p.insert(at, d);
+			bad.push(SV::Struct(short.clone(), p));
+			// omit a non-nullable field (if any)
+			if let Some(pos) = vals.iter().position(|(_, _, _)| true).filter(|_| true) {
+				let candidates: Vec<usize> = (0..vals.len())
+					.filter(|&i| {
+						let fk = kind_of(&schema[fields[i].1]);
+						!matches!(fk, Kind::Null)
+							&& !matches!(&fk, Kind::Union(vs) if vs.iter().any(|&b| kind_of(&schema[b]) == Kind::Null))
+					})
+					.collect();
+				let _ = pos;
+				if let Some(&i) = candidates.choose(&mut rng) {
+					let mut p = base.clone();
+					p.remove(i);
+					p.shuffle(&mut rng);
+					bad.push(SV::Struct(short.clone(), p));
+				}
+			}
+		}
+		let mut w = W::default();
+		w.t("perm").n(allow_slow as usize).schema(&schema).n(same.len());
+		for v in &same {
+			w.sv(v);
+		}
+		w.n(bad.len());
+		for v in &bad {
+			w.sv(v);
+		}
+		let mut all = same.clone();
+		all.extend(bad.iter().cloned());
+		ext_entries(&mut w, &schema, &SV::Seq(None, all));
+		emit(w.s);
+		produced += 1;
+	}
+}
+
 pub fn run(line: &str) -> Result<String, String> {
 	let mut r = R::new(line);
 	let _ = r.tok()?;
